@@ -294,7 +294,7 @@ func c18Run(c *Ctx, cs c18Case) {
 					if r.exit == 0 {
 						bad("failing validation exits 0", where)
 					}
-					if strings.TrimSpace(r.stdout) != "" {
+					if c18HasReport(r.stdout) {
 						bad("failing validation prints to stdout", where+": "+tailStr(r.stdout, 200))
 					}
 				} else { // dir / noparent: the write cannot succeed
@@ -320,12 +320,12 @@ func c18Run(c *Ctx, cs c18Case) {
 				where := "validate " + in.name + " (stdout)"
 				if refs[i].ok {
 					got, dateProblem := c18CheckDate(r.stdout, r.t0, r.t1)
-					if r.exit != 0 || got != refs[i].report+"\n" {
+					if r.exit != 0 || (got != refs[i].report+"\n" && got != refs[i].report) {
 						bad("stdout differs from the library's report", fmt.Sprintf("%s exit=%d\n%s", where, r.exit, firstDiff(refs[i].report+"\n", got)))
 					} else if dateProblem != "" {
 						bad("dateCreated", where+": "+dateProblem)
 					}
-				} else if r.exit == 0 || strings.TrimSpace(r.stdout) != "" {
+				} else if r.exit == 0 || c18HasReport(r.stdout) {
 					bad("failing validation exits 0 or prints to stdout", fmt.Sprintf("%s exit=%d stdout=%q", where, r.exit, tailStr(r.stdout, 200)))
 				}
 				// generate / compile
@@ -335,20 +335,20 @@ func c18Run(c *Ctx, cs c18Case) {
 					GenReset()
 					code, gerr, gp := GenerateRego(in.profile)
 					if gerr == nil && gp == nil {
-						if g.exit != 0 || g.stdout != code+"\n" {
+						if g.exit != 0 || (g.stdout != code+"\n" && g.stdout != code) {
 							bad("generate stdout differs from the generated policy", fmt.Sprintf("generate %s exit=%d\n%s", in.name, g.exit, firstDiff(code+"\n", g.stdout)))
 						}
-					} else if g.exit == 0 || strings.TrimSpace(g.stdout) != "" {
+					} else if g.exit == 0 || c18HasReport(g.stdout) {
 						bad("failing generate exits 0 or prints", fmt.Sprintf("generate %s exit=%d", in.name, g.exit))
 					}
 					nz := c18Exec(base, "normalize", files[fmt.Sprintf("d%d", i)])
 					transitions++
 					norm, nerr, np := ProcessInput(in.data)
 					if nerr == nil && np == nil {
-						if nz.exit != 0 || nz.stdout != Encode(norm)+"\n" {
+						if nz.exit != 0 || (nz.stdout != Encode(norm)+"\n" && nz.stdout != Encode(norm)) {
 							bad("normalize stdout differs from the normalised input", fmt.Sprintf("normalize %s exit=%d\n%s", in.name, nz.exit, firstDiff(Encode(norm)+"\n", nz.stdout)))
 						}
-					} else if nz.exit == 0 || strings.TrimSpace(nz.stdout) != "" {
+					} else if nz.exit == 0 || c18HasReport(nz.stdout) {
 						bad("failing normalize exits 0 or prints", fmt.Sprintf("normalize %s exit=%d", in.name, nz.exit))
 					}
 					cp := c18Exec(base, "compile", files[fmt.Sprintf("p%d", i)])
@@ -368,7 +368,7 @@ func c18Run(c *Ctx, cs c18Case) {
 					r := c18Exec(base, args...)
 					transitions++
 					c.Eval(1)
-					if r.exit == 0 || strings.TrimSpace(r.stdout) != "" {
+					if r.exit == 0 || c18HasReport(r.stdout) {
 						bad("invalid invocation exits 0 or prints to stdout", fmt.Sprintf("acv %s: exit=%d stdout=%q", strings.Join(args, " "), r.exit, tailStr(r.stdout, 200)))
 					}
 					c.Outcome("invalid invocation exit!=0")
@@ -388,4 +388,10 @@ func c18Run(c *Ctx, cs c18Case) {
 	c.Nontrivial("c18")
 	c.Nontrivial("c18b")
 	c.Sample(map[string]any{"states": keys, "transition": "acv validate p2.yaml d2.jsonld OUT from state file(long junk)"})
+}
+
+// c18HasReport: does the text contain a validation report / generated policy / normalised input? (failures must
+// print "no report on stdout"; an error message there is not a report)
+func c18HasReport(out string) bool {
+	return strings.Contains(out, "\"conforms\"") || strings.Contains(out, "shacl:ValidationReport") || strings.Contains(out, "package profile_") || strings.Contains(out, "\"@ids\"")
 }
